@@ -137,6 +137,22 @@ impl C08 {
                     let kk = r.range(1, 2);
                     a.push(r.vec_below(kk, tt));
                     (a, tt)
+                } else if r.chance(1, 2000) {
+                    // value arrays longer than one / two pages of 4096 entries, in an irregular ladder of lengths over
+                    // the run of the process (the primer of main.rs has made much larger and slightly smaller calls
+                    // on this thread before): scratch tables, index caches and the like kept alive between calls
+                    ctx.class("more_than_4096_values");
+                    let tt = t.max(1);
+                    let total = *r.pick(&[4097usize, 4200, 5000, 6000, 8191, 8193, 9000]) + r.below(90);
+                    let nseg = r.range(1, 6);
+                    let mut a: LL = vec![];
+                    let mut left = total;
+                    for i in 0..nseg {
+                        let k = if i + 1 == nseg { left } else { r.below(left + 1) };
+                        left -= k;
+                        a.push(r.vec_below(k, tt));
+                    }
+                    (a, tt)
                 } else if r.chance(1, 10) {
                     // long segments (more than 16 elements)
                     ctx.class("segments_up_to_24");
@@ -539,6 +555,7 @@ impl Monitor for C08 {
     fn floors(&self) -> Vec<(&'static str, u64)> {
         vec![
             ("class:zero_segments", 5),
+            ("class:more_than_4096_values", 20),
             ("class:all_segments_empty", 5),
             ("class:partially_consumed_iterator", 100),
             ("class:reindex_with_repetition", 50),
